@@ -70,7 +70,10 @@ func (c03Enc) Unmarshal(b []byte) (request.Request, error) {
 	return r, nil
 }
 
-type c03Store struct{ m map[string][]byte }
+type c03Store struct {
+	m         map[string][]byte
+	closeFail bool // the storage client reports an error when it is closed (an environment fault during shutdown)
+}
 
 func (s *c03Store) Get(_ context.Context, k string) ([]byte, error) { return s.m[k], nil }
 func (s *c03Store) Set(_ context.Context, k string, v []byte) error { s.m[k] = v; return nil }
@@ -88,7 +91,12 @@ func (s *c03Store) Batch(_ context.Context, ops ...*storage.Operation) error {
 	}
 	return nil
 }
-func (s *c03Store) Close(context.Context) error { return nil }
+func (s *c03Store) Close(context.Context) error {
+	if s.closeFail {
+		return errors.New("storage close failed")
+	}
+	return nil
+}
 
 type c03Ext struct {
 	component.StartFunc
@@ -118,6 +126,7 @@ type c03Cfg struct {
 	FreeBackend bool    `json:"free_backend"` // backend answers are enumerated exhaustively (not charged to the deviation budget)
 	BatchMin    int     `json:"batch_min"`
 	BatchMax    int     `json:"batch_max"`
+	CloseFails  bool    `json:"storage_close_fails,omitempty"` // stopping the queue itself reports an error: everything else must still be stopped
 }
 
 type c03Obs struct {
@@ -189,7 +198,7 @@ func c03Body(cf *c03Cfg, o *c03Obs) func() {
 			return nil
 		}
 		qc := queuebatch.Config{Enabled: true, NumConsumers: cf.Consumers, QueueSize: 100, Sizer: request.SizerTypeItems, WaitForResult: cf.WFR}
-		store := &c03Store{m: map[string][]byte{}}
+		store := &c03Store{m: map[string][]byte{}, closeFail: cf.CloseFails}
 		stID := component.MustNewID("st")
 		if cf.Persistent {
 			qc.Sizer = request.SizerTypeRequests
@@ -374,6 +383,9 @@ func c03Configs(quick bool) []*c03Cfg {
 	var l []*c03Cfg
 	add := func(c c03Cfg) {
 		c.Name = fmt.Sprintf("persistent=%v,batch=%v,retry=%v,consumers=%d,wfr=%v,producers=%v,concurrent=%v", c.Persistent, c.Batch, c.Retry, c.Consumers, c.WFR, c.Producers, c.Concurrent)
+		if c.CloseFails {
+			c.Name += ",storage-close-fails"
+		}
 		if c.FreeBackend {
 			c.Name += fmt.Sprintf(",free-backend,batch=%d..%d", c.BatchMin, c.BatchMax)
 		}
@@ -396,6 +408,7 @@ func c03Configs(quick bool) []*c03Cfg {
 	add(c03Cfg{Persistent: true, Retry: true, Consumers: 1, Producers: [][]int{{1, 2}}, Concurrent: true})
 	add(c03Cfg{Persistent: true, Retry: true, Consumers: 2, Producers: [][]int{{1}, {2}}, Concurrent: false})
 	add(c03Cfg{Persistent: true, Retry: false, Consumers: 1, Producers: [][]int{{1}, {1}}, Concurrent: true})
+	add(c03Cfg{Persistent: true, Retry: true, Consumers: 2, Producers: [][]int{{1}}, Concurrent: true, CloseFails: true})
 	// a request split by the batcher (3 items, min=max=2): its parts finish separately, one of them possibly interrupted by
 	// shutdown; every backend answer pattern is enumerated
 	add(c03Cfg{Persistent: true, Batch: true, Retry: true, Consumers: 1, Producers: [][]int{{3}}, Concurrent: false, FreeBackend: true, BatchMin: 2, BatchMax: 2})
